@@ -80,7 +80,18 @@ def m_spare(tier):
 def m_sparefixed(tier):
     return dict(cfg="CfgFixed3", alpha=["push", "pop", "spare", "clear"], MaxLen=3, MaxLenB=0, MaxExt=0, srcs=["typed"], sinks=["drop"], OneHandle=True)
 
+def m_liar(tier):
+    # splice whose replacement iterator reports a length off by -2..+2
+    return dict(alpha=["push", "splice", "liar", "ext_drop"], MaxLen=3, MaxLenB=0, MaxExt=1, MaxRepl=3, OneHandle=True, forms=["x..y"],
+                srcs=["wrapper", "raw"] + ([] if tier == "quick" else ["typed"]), sinks=["drop", "ext"], timeout=6000)
+
+def m_lazyf(tier):
+    # reduced lazy model for fault enumeration (every clone invocation made to panic)
+    return dict(m_lazy(tier), MaxLazyDepth=1, MaxLazyN=2, alpha=["push", "pop", "lazy", "drain", "keep"])
+
 MODELS = {
+    "lazyf": m_lazyf,
+    "liar": m_liar,
     "raw": m_raw, "rawempty": m_rawempty, "wrong": m_wrong, "swap": m_swap, "spare": m_spare, "sparefixed": m_sparefixed,
     "clone": m_clone,
     "lazy": m_lazy,
@@ -138,8 +149,13 @@ def c13(tier):
 
 def c06(tier):
     if tier == "quick":
-        return [dict(model="elem", faults=True, configs=cfgs(["heap8d"], (R,))), dict(model="range", faults=True, configs=cfgs(["heap8d"], (R,)))]
-    return [dict(model="elem", faults=True, configs=cfgs(["heap8d", "heap160"], (R, D))), dict(model="range", faults=True, configs=cfgs(["heap8d", "heap160"], (R, D)))]
+        return [dict(model="elem", faults=True, configs=cfgs(["heap8d"], (R,))), dict(model="range", faults=True, configs=cfgs(["heap8d"], (R,))),
+                dict(model="clone", faults=True, configs=cfgs(["heap8c"], (R,))), dict(model="lazyf", faults=True, configs=cfgs(["heap8c"], (R,))),
+                dict(model="liar", faults=True, configs=cfgs(["heap8d", "fence8d"], (R,)))]
+    return [dict(model="elem", faults=True, configs=cfgs(["heap8d", "heap160", "fence8d"], (R, D))), dict(model="range", faults=True, configs=cfgs(["heap8d", "heap160", "fence8d"], (R, D))),
+            dict(model="clone", faults=True, configs=cfgs(["heap8c", "fence24d", "heap160"], (R, D))), dict(model="lazy", faults=True, configs=cfgs(["heap8c", "heap160"], (R, D))),
+            dict(model="clonefixed", faults=True, configs=cfgs(["stackn3", "stack8c"], (R,))), dict(model="fixed", faults=True, configs=cfgs(["stack8x3p"], (R,))),
+            dict(model="liar", faults=True, configs=cfgs(["heap8d", "fence8d", "heap160", "stack24x3"], (R, D)))]
 
 def c10(tier):
     if tier == "quick":
